@@ -43,6 +43,25 @@ func runC15(c *Ctx) {
 	c.Rule("C15.5", "an insertion is refused (return false) only from the edge where the victim search ran off the list (cur == nil)")
 	c.Rule("C15.6", "the cache-full refusal is surfaced: setCache turns a false result into ErrLRUCacheFull and all of its callers return that error")
 
+	// hit test: `entry, found := <recv>.cache[key]`
+	hitVars := func(f *Func) (entry, found types.Object) {
+		inspectBody(f.Decl.Body, func(x ast.Node) bool {
+			if as, ok := x.(*ast.AssignStmt); ok && len(as.Lhs) == 2 && len(as.Rhs) == 1 {
+				if ix, ok := ast.Unparen(as.Rhs[0]).(*ast.IndexExpr); ok {
+					if _, isMap := f.TypeOf(ix.X).Underlying().(*types.Map); isMap {
+						if a, ok := as.Lhs[0].(*ast.Ident); ok {
+							entry = f.ObjOf(a)
+						}
+						if b, ok := as.Lhs[1].(*ast.Ident); ok {
+							found = f.ObjOf(b)
+						}
+					}
+				}
+			}
+			return true
+		})
+		return
+	}
 	g := setF.Graph()
 	removes := setF.Calls(setF.Decl.Body, false, "list.List.Remove")
 	pushes := setF.Calls(setF.Decl.Body, false, "list.List.PushFront")
@@ -204,14 +223,15 @@ func runC15(c *Ctx) {
 	for _, f := range []*Func{getF, setF} {
 		fg := f.Graph()
 		key := f.Name + "|hit-promotes"
-		// found edge: cond ident `found` (second result of the map lookup)
+		// found edge: cond ident bound to the second result of the map lookup
+		entryObj, foundObj := hitVars(f)
 		var foundBlk *cfg.Block
 		for _, b := range fg.c.Blocks {
 			if !fg.Reachable(b) || len(b.Succs) != 2 {
 				continue
 			}
 			if info, ok := fg.EdgeInfo(b, 0); ok {
-				if id, ok := ast.Unparen(info.Cond).(*ast.Ident); ok && id.Name == "found" {
+				if id, ok := ast.Unparen(info.Cond).(*ast.Ident); ok && foundObj != nil && f.ObjOf(id) == foundObj {
 					foundBlk = b.Succs[0]
 				}
 			}
@@ -233,7 +253,13 @@ func runC15(c *Ctx) {
 		c.Check(!miss, "C15.3", key, f.Decl.Pos(), "every hit path calls MoveToFront before returning", "a hit can return without MoveToFront: recency is not refreshed and a recently used page is evicted before less recently used ones")
 		// MoveToFront's argument is the found entry
 		for _, mv := range f.Calls(f.Decl.Body, false, "list.List.MoveToFront") {
-			c.Check(len(mv.Args) == 1 && exprKey(mv.Args[0]) == "entry", "C15.3", f.Name+"|promotes-found-entry", mv.Pos(), "the found entry is promoted", "MoveToFront is not applied to the found entry")
+			isEntry := false
+			if len(mv.Args) == 1 {
+				if id, ok := ast.Unparen(mv.Args[0]).(*ast.Ident); ok && entryObj != nil && f.ObjOf(id) == entryObj {
+					isEntry = true
+				}
+			}
+			c.Check(isEntry, "C15.3", f.Name+"|promotes-found-entry", mv.Pos(), "the found entry is promoted", "MoveToFront is not applied to the found entry")
 		}
 	}
 	// set stores the new page into the found entry
@@ -241,7 +267,7 @@ func runC15(c *Ctx) {
 	refOK := false
 	inspectBody(setF.Decl.Body, func(x ast.Node) bool {
 		if as, ok := x.(*ast.AssignStmt); ok && len(as.Lhs) == 1 && len(as.Rhs) == 1 {
-			if strings.HasPrefix(exprKey(as.Lhs[0]), "entry.Value.(*cacheEntry).val") {
+			if eo, _ := hitVars(setF); eo != nil && strings.HasPrefix(exprKey(as.Lhs[0]), eo.Name()+".Value.(*cacheEntry).val") {
 				if id, ok := ast.Unparen(as.Rhs[0]).(*ast.Ident); ok && setF.ObjOf(id) == valParam {
 					refOK = true
 				}
@@ -299,7 +325,7 @@ func runC15(c *Ctx) {
 	}, nil)
 	capTest := false
 	inspectBody(setF.Decl.Body, func(x ast.Node) bool {
-		if be, ok := x.(*ast.BinaryExpr); ok && strings.Contains(exprKey(be), "maxNodes") && strings.Contains(exprKey(be), "len(lru.cache)") && (be.Op == token.EQL || be.Op == token.GEQ) {
+		if be, ok := x.(*ast.BinaryExpr); ok && strings.Contains(exprKey(be), "maxNodes") && strings.Contains(exprKey(be), "len("+recvName(setF)+".cache)") && (be.Op == token.EQL || be.Op == token.GEQ) {
 			capTest = true
 		}
 		return true
@@ -400,7 +426,7 @@ func runC16(c *Ctx) {
 							continue
 						}
 						if info, ok := g.EdgeInfo(b, 1); ok {
-							if id, ok := ast.Unparen(info.Cond).(*ast.Ident); ok && id.Name == "ok" && g.BlockDominates(b.Succs[1], rl.B) {
+							if id, ok := ast.Unparen(info.Cond).(*ast.Ident); ok && f.ObjOf(id) == f.resultVar(f.Decl.Body, gets[0], 1) && g.BlockDominates(b.Succs[1], rl.B) {
 								okMiss = true
 							}
 						}
